@@ -131,6 +131,8 @@ var typeNameRe = regexp.MustCompile(`\b[A-Z][A-Za-z0-9]*(Or[A-Z][A-Za-z0-9]*)+\b
 
 func maskGoDiag(msg string) string {
 	msg = identAfterDotRe.ReplaceAllString(msg, "$1.X")
+	// `(*resource.Items)[i]` (optional member) and `resource.Items[i]` come from the same template line
+	msg = regexp.MustCompile(`\(\*(resource|other|builder|input)\.X`).ReplaceAllString(msg, "$1.X")
 	msg = typeNameRe.ReplaceAllString(msg, "UnionType")
 	msg = quotedRe.ReplaceAllString(msg, "«s»")
 	msg = digitsRe.ReplaceAllString(msg, "N")
